@@ -9,6 +9,9 @@ TimeToMaturity feature against the replica (op "ttm").
 histories of objects (replaced underliers, two-underlier derivatives, listed derivative / other owner, mixed histories with different step
 sizes) against the model of the grid over a system of instruments (Model/GridSys.lean, op "grid_sys", theorems Lemmas/C13System.lean):
 object identity of every accessor, shapes of all buffers of all primaries, of time to maturity / payoff / features / hedge, error kinds.
+feature objects / FeatureLists used as TEMPLATES: one object bound with .of() to two or three simulated derivatives of different maturity /
+step size / number of paths, every binding used after the later ones were made (and after a re-simulation of its derivative): each stays on
+the grid of ITS derivative (predicate), and answers the model's feature / features queries of its derivative (op "grid_sys").
 """
 import math
 from fractions import Fraction as F
@@ -618,6 +621,247 @@ def check_feature_steps(ctx, torch, I, g, freqs, fmeta):
                         break
 
 
+# ---------------------------------------------------------------------------------------------------------------------------
+# feature objects as TEMPLATES.  A FeatureList (or single feature objects a user keeps: the inputs handed to several lists / hedgers,
+# features with parameters, user-defined features) is bound with .of(derivative) to SEVERAL simulated derivatives of different
+# maturity / step size / number of paths; all bindings are made first (some before the derivatives are simulated) and used afterwards,
+# in any order, also after one of the derivatives was simulated again with another maturity.  Every binding reports the grid of the
+# derivative it was bound to: get(None) has that derivative's (n_paths, T) with T = ceil(M/dt)+1, time to maturity is (T-1-i)*dt of ITS
+# step size (zero at the last step, strictly decreasing), moneyness is ITS underlier / ITS strike, every column equals the same
+# feature of a feature object of its own, get(i) is column i.  The same bindings answer the model's feature / features queries of
+# their derivative (grid_sys: two or three derivatives on their own primaries in one history).
+
+SF_NAMED = ["moneyness", "log_moneyness", "time_to_maturity", "underlier_spot", "volatility", "variance", "zeros", "max_moneyness"]
+SF_PRIMS = ["BrownianStock", "BrownianStock", "HestonStock", "MertonJumpStock", "KouJumpStock", "LocalVolatilityStock"]
+SF_FORMS = ["template", "objects", "single", "chain", "hedger_inputs"]
+
+
+def sf_corpus(torch):
+    """(primary, dt, maturity, option, strike, call, dtype, n_paths) of each derivative, and the features; part of every run"""
+    N = None
+    f3 = ["moneyness", "time_to_maturity", "volatility"]
+    return [
+        ([("BrownianStock", 1 / 250, 20 / 250, "EuropeanOption", 1.0, True, N, 3), ("BrownianStock", 1 / 250, 10 / 250, "EuropeanOption", 1.0, True, N, 3)], f3),
+        ([("BrownianStock", 1 / 365, 30 / 365, "EuropeanOption", 1.1, True, N, 2), ("HestonStock", 1 / 12, 0.25, "LookbackOption", 1.0, True, N, 2)], f3),
+        ([("BrownianStock", 0.1, 0.45, "EuropeanOption", 1.0, True, N, 2), ("BrownianStock", 0.1, 0.3, "EuropeanOption", 1.0, False, N, 4)],
+         ["time_to_maturity", "log_moneyness"]),
+        # the same number of time points, another step size / only other paths
+        ([("BrownianStock", 1 / 250, 5 / 250, "EuropeanOption", 1.0, True, torch.float64, 2), ("BrownianStock", 1 / 12, 5 / 12, "AmericanBinaryOption", 1.25, True, torch.float64, 2)],
+         ["time_to_maturity", "moneyness", "max_moneyness"]),
+        ([("BrownianStock", 1 / 250, 5 / 250, "EuropeanOption", 1.0, True, N, 2), ("BrownianStock", 1 / 250, 5 / 250, "EuropeanOption", 0.5, True, N, 2),
+          ("KouJumpStock", 1 / 52, 3.5 / 52, "EuropeanBinaryOption", 1.0, False, N, 1)], ["underlier_spot", "moneyness", "variance", "zeros"]),
+    ]
+
+
+def sf_gen(g, torch):
+    ders = []
+    for _ in range(g.choice([2, 2, 2, 3])):
+        while True:
+            dt = g.choice(DTS)
+            spec = (g.choice(SF_PRIMS), dt, (g.choice([1, 2, 3, 5, 8, 13, 20]) + g.choice([0, 0, 0, 0.5])) * dt, g.choice(OPTS),
+                    g.choice([1.0, 0.5, 1.25]), g.chance(0.6), g.choice([None, None, torch.float64]), g.choice([1, 2, 2, 3]))
+            # mostly another grid than the derivatives before (sometimes the same grid: only the paths differ)
+            if all((spec[1], spec[2]) != (o[1], o[2]) for o in ders) or g.chance(0.15):
+                break
+        ders.append(spec)
+    names = ["time_to_maturity"] if g.chance(0.8) else []
+    names += [g.choice(SF_NAMED) for _ in range(g.choice([1, 2, 3]))]
+    if g.chance(0.3):
+        names = names[::-1]
+    return ders, names
+
+
+def check_shared_features(ctx, torch, I, g, gtraces):
+    from pfhedge.features import FeatureList, get_feature, Ones, Barrier, ModuleOutput
+    from pfhedge.features._base import Feature
+    from pfhedge.features.features import UnderlierLogSpot
+    from pfhedge.nn import Hedger, Naked
+
+    class ScaledTime(Feature):
+        """a user-defined feature with a parameter: the time to maturity in units of `unit`"""
+        name = "scaled_time"
+
+        def __init__(self, unit):
+            super().__init__()
+            self.unit = unit
+
+        def get(self, time_step=None):
+            return self.derivative.time_to_maturity(time_step).unsqueeze(-1) / self.unit
+
+    def make_obj(name, par):
+        if name == "ones":
+            return Ones()
+        if name == "underlier_log_spot":
+            return UnderlierLogSpot()
+        if name == "barrier":
+            return Barrier(par["threshold"], up=par["up"])
+        if name == "scaled_time":
+            return ScaledTime(par["unit"])
+        return get_feature(name)
+
+    cases = [(c, True) for c in sf_corpus(torch)] + [(sf_gen(g, torch), False) for _ in range(26 if ctx.tier == "quick" else 400)]
+    for (specs, names), fixed in cases:
+        par = {"threshold": g.choice([1.0, 1.01, 0.99]), "up": g.chance(0.5), "unit": g.choice([1 / 250, 1 / 12, 0.5])}
+        onames = names + [g.choice(["ones", "underlier_log_spot", "barrier", "scaled_time"]) for _ in range(g.choice([1, 2]))]
+        when = g.choice(["bound_after_simulation", "bound_before_simulation", "bound_in_between"])
+        resim = g.chance(0.35)
+        case = {"shared_features": True, "derivatives": [[sp[0], sp[1], sp[2], sp[3], sp[4], sp[5], str(sp[6]), sp[7]] for sp in specs],
+                "features": names, "feature_objects": onames, "parameters": par, "when": when, "corpus": fixed}
+        ctx.case(case, True, tag="shared_features")
+        ctx.traces += 1
+        ctx.stats[f"shared_features:derivatives={len(specs)}"] += 1
+        ctx.stats[f"shared_features:{when}"] += 1
+        tr = GTrace(case, "shared_features")
+        gtraces.append(tr)
+        ders = []
+        for prim, dt, m, opt, strike, call, dtype, n_ in specs:
+            p = make_primary(I, torch, prim, dt, dtype)
+            d = getattr(I, opt)(p, call=call, strike=strike, maturity=m)
+            tr.deriv(d, [("underlier", p)], True, pk="arith" if opt in ("EuropeanOption", "LookbackOption") else "indicator")
+            ders.append((d, p, n_))
+        K = len(ders)
+
+        def simulate(k):
+            d_, p_, n_ = ders[k]
+            st_, v_, _ = call_impl(d_.simulate, n_paths=n_)
+            if st_ != "ok":
+                ctx.fail("derivative.simulate raised", case, key=f"simulate:{type(p_).__name__}:raise", detail=v_)
+                return False
+            tr.deriv_sim(d_, n_)
+            return True
+
+        # ---- the templates, and their bindings to every derivative (derivative 0 first)
+        sim_before = {"bound_after_simulation": K, "bound_before_simulation": 0, "bound_in_between": 1}[when]
+        if not all(simulate(k) for k in range(sim_before)):
+            continue
+        template = FeatureList(names)                         # one list, bound K times
+        objs = [make_obj(n_, par) for n_ in onames]           # feature objects the user keeps ...
+        hedger = Hedger(Naked(), objs)                        # ... handed to a hedger as its inputs
+        bound = {f: [] for f in SF_FORMS}
+        for k, (d, p, n_) in enumerate(ders):
+            bound["template"].append(template.of(d))
+            bound["objects"].append(FeatureList(objs).of(d))              # a new list each time, the SAME feature objects
+            bound["single"].append([f.of(d) for f in objs])
+            bound["chain"].append(template.of(d) if k == 0 else bound["chain"][k - 1].of(d))    # a bound list bound again
+            bound["hedger_inputs"].append(hedger.inputs.of(d, hedger))
+        if not all(simulate(k) for k in range(sim_before, K)):
+            continue
+        # (measured, no predicate: ModuleOutput.of binds the module itself in place and returns it - there is one object, not a
+        #  binding per derivative)
+        with torch.no_grad():
+            mo = ModuleOutput(torch.nn.Identity(), ["time_to_maturity"])
+            mo_first = mo.of(ders[0][0])
+            mo.of(ders[1][0])
+            follows = mo_first.get(None).size(1) == ders[1][1].spot.size(1) != ders[0][1].spot.size(1)
+            ctx.stats["shared_features:module_output(in-place by design):first-binding-" + ("follows-the-rebinding" if follows else "kept/same-T")] += 1
+
+        def on_own_grid(form, k, rnd):
+            """the binding `form` of derivative k is on the grid of derivative k; False after a reported failure"""
+            d, p, n_ = ders[k]
+            T, dt = p.spot.size(1), p.dt
+            here = case | {"form": form, "derivative": k, "round": rnd, "own_grid": [n_, T], "grids": [list(p_.spot.shape) for _, p_, _ in ders]}
+            key = f"feature.of:shared-template:{form}:"
+            cols = names if form in ("template", "chain") else onames
+            if form == "single":
+                got = [call_impl(f.get, None)[:2] for f in bound[form][k]]
+                if any(st_ != "ok" or tuple(v_.shape) != (n_, T, 1) for st_, v_ in got):
+                    ctx.fail("a feature object bound with .of() to several derivatives: the binding to one derivative is not on THAT "
+                             "derivative's grid (n_paths, ceil(M/dt)+1, 1) once the object was bound to another derivative", here, key=key + "grid",
+                             detail={"shapes": [list(v_.shape) if st_ == "ok" else v_ for st_, v_ in got], "expected": [n_, T, 1]})
+                    return False
+                full = torch.cat([v_ for _, v_ in got], dim=-1)
+                getter = lambda i: torch.cat([f.get(i) for f in bound[form][k]], dim=-1)      # noqa
+            else:
+                st_, full, _ = call_impl(bound[form][k].get, None)
+                if st_ != "ok" or tuple(full.shape) != (n_, T, len(cols)):
+                    ctx.fail("a FeatureList / feature objects bound with .of() to several derivatives: the binding to one derivative is not on "
+                             "THAT derivative's grid (n_paths, ceil(M/dt)+1, F) once the template was bound to another derivative", here,
+                             key=key + "grid", detail={"shape": list(full.shape) if st_ == "ok" else full, "expected": [n_, T, len(cols)]})
+                    return False
+                getter = bound[form][k].get
+            if T not in expected_points(d.maturity, dt):
+                ctx.fail("number of simulated time points differs from ceil(M/dt)+1", here, key="primary.simulate:n_steps=ceil(M/dt+1)",
+                         detail={"points": T, "expected": sorted(expected_points(d.maturity, dt))})
+                return False
+            eps = _ulp_eps(p.spot, T, dt)
+            ulp = 8 * 2.0 ** (-52 if p.spot.dtype == torch.float64 else -23)
+            tol = []
+            for j, name in enumerate(cols):
+                col = full[..., j]
+                if name in ("time_to_maturity", "scaled_time"):
+                    unit = par["unit"] if name == "scaled_time" else 1.0
+                    tol.append(2 * eps / unit)
+                    tt = col.to(torch.float64).tolist()
+                    if any(abs(row[i] - (T - 1 - i) * dt / unit) > 2 * eps / unit for row in tt for i in range(T)) \
+                            or any(row[-1] != 0.0 for row in tt) or any(row[i] <= row[i + 1] for row in tt for i in range(T - 1)):
+                        ctx.fail("a time-to-maturity feature bound to several derivatives: the binding to one derivative is not (T-1-i)*dt of THAT "
+                                 "derivative (strictly decreasing to exactly zero)", here | {"feature": name}, key=key + "time_to_maturity",
+                                 detail={"impl": tt[0][:6], "dt": dt, "T": T})
+                        return False
+                    continue
+                tol.append(None if "log" not in name else ulp)
+                if name == "moneyness":
+                    ref = p.spot / d.strike
+                else:
+                    ref = make_obj(name, par).of(d).get(None)[..., 0]          # a feature object of its own, used at once
+                same = torch.equal(col, ref) if "log" not in name else bool(((col - ref).abs() <= ulp * (1 + ref.abs())).all())
+                if not same:
+                    ctx.fail("a feature bound to several derivatives: the values of the binding to one derivative are not those of THAT derivative "
+                             "(its underlier, strike and paths)", here | {"feature": name}, key=key + "values",
+                             detail={"impl": col[0].tolist()[:6], "own": ref[0].tolist()[:6]})
+                    return False
+            for i in sorted({0, T - 1, -1, -T, g.randint(0, T - 1)}):
+                st_, one, _ = call_impl(getter, i)
+                if st_ != "ok":
+                    if i < 0:
+                        continue               # a negative index a feature of the list does not accept (running maximum up to step -1)
+                    ctx.fail("a feature list bound to several derivatives raised at a step of its derivative's grid", here | {"step": i},
+                             key=key + "step", detail=one)
+                    return False
+                ok = tuple(one.shape) == (n_, 1, len(cols))
+                for j, t_ in enumerate(tol if ok else []):
+                    a, b = one[:, 0, j], full[:, i, j]
+                    ok = ok and (torch.equal(a, b) if t_ is None else bool(((a - b).abs() <= t_ * (1 + b.abs())).all()))
+                if not ok:
+                    ctx.fail("a feature list bound to several derivatives: get(i) is not column i of get(None) on the grid of its derivative",
+                             here | {"step": i}, key=key + "step", detail={"shape": list(one.shape), "expected": [n_, 1, len(cols)]})
+                    return False
+            return True
+
+        def ask_model(k):
+            """the bindings answer the model's queries about the features of derivative k"""
+            d = ders[k][0]
+            tr.ask(["features", k, names], lambda: bound["template"][k].get(None), _shape)
+            tr.ask(["features", k, names], lambda: bound["chain"][k].get(None), _shape)
+            known = [j for j, n_ in enumerate(onames) if n_ != "scaled_time"]
+            if known:
+                tr.ask(["features", k, [onames[j] for j in known]], lambda: bound["objects"][k].get(None)[..., known], _shape)
+                tr.ask(["features", k, [onames[j] for j in known]], lambda: bound["hedger_inputs"][k].get(None)[..., known], _shape)
+            for j in known:
+                tr.ask(["feature", k, onames[j]], lambda j=j: bound["single"][k][j].get(None), _shape)
+            tr.ask(["ttm", k], lambda: d.time_to_maturity(None), _shape)
+            tr.ask(["payoff", k], lambda: d.payoff(), _shape)
+
+        failed = set()                   # forms with a reported failure in this case (each form is judged on its own)
+        for rnd in range(2 if resim else 1):
+            if rnd == 1:
+                # one derivative is simulated again with another maturity: its bindings follow ITS new grid, the others stay
+                k = g.randint(0, K - 1)
+                d, p, n_ = ders[k]
+                d.maturity = (g.choice([1, 2, 4, 7, 11]) + g.choice([0, 0, 0.5])) * p.dt
+                case["resimulated"] = {"derivative": k, "maturity": d.maturity}
+                if not simulate(k):
+                    break
+            with torch.no_grad():
+                # the binding made FIRST is used after all the others were made; then the others; every form
+                order = list(range(K)) if g.chance(0.5) else list(range(K))[::-1]
+                for k in order:
+                    for form in SF_FORMS:
+                        if form not in failed and not on_own_grid(form, k, rnd):
+                            failed.add(form)
+                    ask_model(k)
+
+
 def check(ctx):
     torch, pfhedge = import_impl()
     import pfhedge.instruments as I
@@ -910,6 +1154,7 @@ def check(ctx):
                 ctx.fail("a hedge computed with a listed derivative as the hedging instrument is not on the grid of the derivative just simulated",
                          case, key="listed:hedge-grid", detail=bad)
                 break
+    check_shared_features(ctx, torch, I, g, gtraces)
     check_replace_underlier(ctx, torch, I, g, gtraces)
     check_mixed_histories(ctx, torch, I, g, gtraces)
     freqs, fmeta = [], []
@@ -983,4 +1228,9 @@ def check(ctx):
              "derivatives with and without OptionMixin, registry order first/underlier, assignments, registrations, maturity changes incl. M = 0, "
              "simulations through either owner or the primary) replayed by the model op grid_sys on exact rationals and on doubles: accessors by "
              "object identity, all buffer shapes, ttm / payoff / features / hedge shapes or error kinds compared exactly; "
+             "ONE FeatureList / set of feature objects (named features, Ones, UnderlierLogSpot, Barrier, a user-defined feature with a parameter; "
+             "also as the inputs of a Hedger, as single objects, and a bound list bound again) bound to 2-3 derivatives of different primary / dt / "
+             "maturity / n_paths / strike (5 fixed pairs + random ones), bound before or after the simulations, every binding used after all were "
+             "made and after a re-simulation with a new maturity: shape, time to maturity, values, get(i) on its OWN derivative's grid, and the "
+             "same bindings as answers to the model's feature(s) queries (grid_sys with several derivatives); "
              "every case is non-trivial (T>=2 for ttm); distinct = sha1 of canonical case")
